@@ -89,6 +89,19 @@ def run_impl(exe, seqs, timeout=1800, max_crashes=4, op_timeout=10):
     return results
 
 
+_DIAG = None
+
+
+def canon_diag(ans):
+    """dsh.c's own diagnostics (err ("%p: ...")) name the program, the local host and strerror: in the answers of
+    the implementation every stderr emission that starts with `pdsh@` becomes the model's `9:-`"""
+    global _DIAG
+    import re
+    if _DIAG is None:
+        _DIAG = re.compile(r" 2:" + hexs(b"pdsh@") + r"[0-9a-f]*")
+    return [_DIAG.sub(" 9:-", a) if " 2:70647368" in a else a for a in ans]
+
+
 def harness_meta(exe):
     return int(subprocess.run([exe, "--meta"], stdout=subprocess.PIPE).stdout.decode().strip())
 
@@ -469,6 +482,8 @@ def collect(case, answers):
             continue
         i = int(w[1])
         for s, b in pa[3]:
+            if s == "2" and b.startswith(b"pdsh@") and "read-error" in case.tags:
+                continue          # dsh.c's own diagnostic about a read(2) that failed (scripted EIO)
             if w[0] == "flush":
                 key = (i, "o") if s == "1" else (i, "e") if s == "2" else None
             else:
@@ -565,6 +580,7 @@ def evaluate(ctx, prop, cases, impl, cov, dist, flavour, engines=("index", "fifo
             pos += n
             continue
         # ---- correspondence: implementation vs both models, call by call
+        ans = canon_diag(ans)
         for e in engines:
             m = models[e][pos:pos + n]
             if ans != m:
@@ -783,7 +799,17 @@ def run_check(ctx, prop, props_module, level):
     ctx.lean_build([props_module, "pdshmodel"])
     ctx.audit(props_module)
     cov = {"evaluations": 0, "distinct_nontrivial": 0, "samples": [], "_distinct": set(),
-           "rule": "case = target set x options (-N, -K) x per (host, stream) payload x chunking x interleaved "
+           "rule": "PINNED FIRST, every run, both build flavours (vlib/relay_pinned.py): lines of exactly 64/65/2047-2049/"
+                   "8191-8193/131071/131072/131073 bytes, streams around every sampled capacity of cbuf.c's growth sequence "
+                   "for the regenerated constants (and the lossy step when growthOk is false), unterminated tails 1/8190-"
+                   "8193/16382-16384, empty lines, bursts of hundreds of tiny lines in one read, the marker cut at every "
+                   "position / at the end without newline / on stderr / look-alikes, '%' in tails and lines, arrivals ending "
+                   "exactly at the ring's physical end, growth of a wrapped buffer, every name pool x -K x -N, EOF on one "
+                   "stream long before the other, every fragmentation of two small streams on two hosts x every "
+                   "interleaving, read(2) faults at every handler call (short reads, spurious EAGAIN, EINTR), pdcp/rpdcp "
+                   "remote stderr through the real _parallel_copy; pinned real runs (domain loop of dsh(), one stream ends "
+                   "first, exec fails after an unterminated fragment) and pinned scheduler cases; THEN RANDOM: "
+                   "case = target set x options (-N, -K) x per (host, stream) payload x chunking x interleaved "
                    "schedule of handler calls; payload lines of length 0/1/../62-66/934-1002/1998-2001/3999/4000/"
                    "8190-8193 (thorough: 131071/131072, beyond: 131073+), final fragment absent / 1..200 / 8190-8194 / "
                    "16381-16384 / 20000 (thorough: 131071/131072) bytes; chunkings whole / 1-byte / cut on, before, "
@@ -792,7 +818,8 @@ def run_check(ctx, prop, props_module, level):
                    "non-trivial = stream with >= 2 lines and a chunk boundary strictly inside a line; distinct = "
                    "distinct (payload, chunk sizes, options, targets, stream); controlled-scheduler part: 2-6 targets "
                    "with scripted stdout+stderr each under uniform/PCT/starve/eager/preempt-at-each-fputs schedules "
-                   "(thorough: all io interleavings of 4 tiny configurations), distinct = distinct (stream, schedule)"}
+                   "(thorough: all io interleavings of 4 tiny configurations), distinct = distinct (stream, schedule); every read of "
+                   "every worker under the scheduler is replayed through the model's handler (loop replay)"}
     dist = {"tags": {}, "flavours": {}}
     exe_dbg = build_harness(ctx, "relay_dbg", assertions=True)
     exe_rel = build_harness(ctx, "relay_rel", assertions=False)
